@@ -1,6 +1,6 @@
 # -*- coding: utf-8 -*-
 """C04 Implicit hydrogen counts and valence errors follow the element valence rules -- structural clauses."""
-from ..r_valence import (rule_tables_compile, rule_definite_assignment, rule_sibling_agreement, rule_aromatic_carbon, rule_totals)
+from ..r_valence import (rule_tables_compile, rule_definite_assignment, rule_sibling_agreement, rule_aromatic_carbon, rule_totals, rule_valence_parity)
 
 from ..r_domains import rule_domains
 from ..r_construct import rule_changed_set
@@ -22,3 +22,4 @@ def run(ck, repo):
     rule_changed_set(ck, repo)
     run_protocol(ck, repo, 'C04.D5-recalculation', only_dims={'HYDRO'})
     _rule_hygiene(ck, repo, 'C04.H-dataflow-hygiene', 'C04')
+    rule_valence_parity(ck, repo, 'C04.D1-valence-parity')
